@@ -9,12 +9,39 @@ use tracing::info;
 #[derive(Debug)]
 pub struct ConditionEvaluatorBuilder {
     evaluator: ConditionEvaluator,
+    /// When known, the time-typed fields of the schema: only their string literals are read as
+    /// instants. None keeps the schema-less behaviour (every time-looking string is an instant).
+    temporal_fields: Option<std::collections::HashSet<String>>,
 }
 
 impl ConditionEvaluatorBuilder {
     pub fn new() -> Self {
         Self {
             evaluator: ConditionEvaluator::new(),
+            temporal_fields: None,
+        }
+    }
+
+    /// Restricts time-literal parsing to the given fields (plus the core `timestamp`).
+    pub fn with_temporal_fields(
+        mut self,
+        fields: Option<&std::collections::HashSet<String>>,
+    ) -> Self {
+        self.temporal_fields = fields.cloned();
+        self
+    }
+
+    fn sub_builder(&self) -> Self {
+        Self {
+            evaluator: ConditionEvaluator::new(),
+            temporal_fields: self.temporal_fields.clone(),
+        }
+    }
+
+    fn reads_time_literals(&self, field: &str) -> bool {
+        match &self.temporal_fields {
+            None => true,
+            Some(set) => field == "timestamp" || set.contains(field),
         }
     }
 
@@ -25,11 +52,12 @@ impl ConditionEvaluatorBuilder {
                 let scalar_value = ScalarValue::from(value.clone());
 
                 // Best-effort: try to parse any string temporal literal to epoch seconds
-                let parsed_temporal = if let ScalarValue::Utf8(s) = &scalar_value {
-                    TimeParser::parse_str_to_epoch_seconds(s, TimeKind::DateTime)
-                        .or_else(|| TimeParser::parse_str_to_epoch_seconds(s, TimeKind::Date))
-                } else {
-                    None
+                let parsed_temporal = match &scalar_value {
+                    ScalarValue::Utf8(s) if self.reads_time_literals(field) => {
+                        TimeParser::parse_str_to_epoch_seconds(s, TimeKind::DateTime)
+                            .or_else(|| TimeParser::parse_str_to_epoch_seconds(s, TimeKind::Date))
+                    }
+                    _ => None,
                 };
 
                 if let Some(parsed) = parsed_temporal {
@@ -70,12 +98,14 @@ impl ConditionEvaluatorBuilder {
                 for value in values {
                     let scalar_value = ScalarValue::from(value.clone());
 
-                    // Try temporal parsing first
-                    let parsed_temporal = if let ScalarValue::Utf8(s) = &scalar_value {
-                        TimeParser::parse_str_to_epoch_seconds(s, TimeKind::DateTime)
-                            .or_else(|| TimeParser::parse_str_to_epoch_seconds(s, TimeKind::Date))
-                    } else {
-                        None
+                    // Try temporal parsing first (time fields only, when the schema is known)
+                    let parsed_temporal = match &scalar_value {
+                        ScalarValue::Utf8(s) if self.reads_time_literals(field) => {
+                            TimeParser::parse_str_to_epoch_seconds(s, TimeKind::DateTime).or_else(
+                                || TimeParser::parse_str_to_epoch_seconds(s, TimeKind::Date),
+                            )
+                        }
+                        _ => None,
                     };
 
                     if let Some(parsed) = parsed_temporal {
@@ -112,9 +142,9 @@ impl ConditionEvaluatorBuilder {
             }
             Expr::And(left, right) => {
                 info!(target: "sneldb::evaluator", "Parsing AND expression");
-                let mut left_builder = ConditionEvaluatorBuilder::new();
+                let mut left_builder = self.sub_builder();
                 left_builder.add_where_clause(left);
-                let mut right_builder = ConditionEvaluatorBuilder::new();
+                let mut right_builder = self.sub_builder();
                 right_builder.add_where_clause(right);
 
                 let left_condition = left_builder.into_evaluator().into_conditions();
@@ -129,9 +159,9 @@ impl ConditionEvaluatorBuilder {
             }
             Expr::Or(left, right) => {
                 info!(target: "sneldb::evaluator", "Parsing OR expression");
-                let mut left_builder = ConditionEvaluatorBuilder::new();
+                let mut left_builder = self.sub_builder();
                 left_builder.add_where_clause(left);
-                let mut right_builder = ConditionEvaluatorBuilder::new();
+                let mut right_builder = self.sub_builder();
                 right_builder.add_where_clause(right);
 
                 let left_condition = left_builder.into_evaluator().into_conditions();
@@ -146,7 +176,7 @@ impl ConditionEvaluatorBuilder {
             }
             Expr::Not(expr) => {
                 info!(target: "sneldb::evaluator", "Parsing NOT expression");
-                let mut expr_builder = ConditionEvaluatorBuilder::new();
+                let mut expr_builder = self.sub_builder();
                 expr_builder.add_where_clause(expr);
 
                 let expr_condition = expr_builder.into_evaluator().into_conditions();
@@ -220,7 +250,8 @@ impl ConditionEvaluatorBuilder {
     }
 
     pub fn build_from_plan(plan: &QueryPlan) -> ConditionEvaluator {
-        let mut builder = ConditionEvaluatorBuilder::new();
+        let mut builder =
+            ConditionEvaluatorBuilder::new().with_temporal_fields(plan.temporal_fields());
 
         if let Some(where_clause) = plan.where_clause() {
             info!(target: "sneldb::evaluator", "Building from where clause");
